@@ -22,9 +22,10 @@ SPECIAL_T = [(2020, 2, 29, 23, 59, 59), (2019, 12, 31, 23, 59, 59), (2020, 1, 1,
 KIND_CLASS = {"ENU": "ENUCoords", "GEO": "GeoCoords", "ECEF": "ECEFCoords"}
 WRITE_FAULTS = ("open_error", "write_error", "close_error", "interrupt", "crash")
 READ_FAULTS = ("open_error", "read_error", "interrupt")
+DIR_READ_FAULTS = ("open_error", "read_error", "interrupt", "listdir_error")
 ERRNOS = {"open_error": (errno.EACCES, errno.ENOENT, errno.EMFILE),
           "write_error": (errno.ENOSPC, errno.EIO), "close_error": (errno.ENOSPC,),
-          "read_error": (errno.EIO,)}
+          "read_error": (errno.EIO,), "listdir_error": (errno.EIO, errno.EACCES)}
 FAMILIES = ("csv", "gpx", "gpxdir", "net", "wkt", "setfmt", "mkfmt", "tz", "clock",
             "reread", "read_unknown", "csvdir")
 
@@ -43,7 +44,7 @@ class IoWorld(World):
     NAME = "io"
     PROPS = ("C13",)
     FALSIFIERS = {"C13": ("read_csv", "read_gpx", "read_gpx_dir", "read_network",
-                          "wkt_roundtrip", "read_csv_dir")}
+                          "wkt_roundtrip", "read_csv_dir", "read_net_wkt")}
     COMPONENTS = {
         "real": ["tracklib.io.TrackWriter (writeToFile, writeToFiles, writeToGpx)",
                  "tracklib.io.TrackReader (readFromCsv, readFromFile, readFromGpx, parseWkt)",
@@ -54,6 +55,7 @@ class IoWorld(World):
                  "clock: SimClock behind the name datetime of tracklib.core.obs_time",
                  "process restart after a crash: objects dropped, globals restored to import-time values",
                  "stdout of tracklib: discarded"]}
+    STATE_MEASURE = "(read-format index, print-format index, acknowledged files (0..3), unacknowledged files (0..2), real global formats differ from the belief (read, print), in-memory format objects exist)"
     ASSUMPTIONS = [
         "a closed file is durable, a file open at a crash keeps a seeded prefix (tracklib never fsyncs)",
         "faults are injected at call granularity of the file primitives and, for interrupts, at traced "
@@ -65,7 +67,7 @@ class IoWorld(World):
     @classmethod
     def draw_config(cls, r, focus):
         kinds = [k for k in ("open_error", "write_error", "close_error", "read_error",
-                             "interrupt", "crash") if r.random() < 0.6]
+                             "interrupt", "crash", "listdir_error") if r.random() < 0.6]
         rate = r.choice([0.0, 0.0, 0.05, 0.15, 0.3])
         if not kinds:
             rate = 0.0
@@ -258,7 +260,7 @@ class IoWorld(World):
             st["fault"] = f
         q.append({"op": "set_read_format", "fmt": "@dir:" + path, "s": s, "dt": 0})
         rd = {"op": "read_csv_dir", "path": path, "ls": r.randrange(1000), "s": s, "dt": 1}
-        f = self._fault(r, READ_FAULTS)
+        f = self._fault(r, DIR_READ_FAULTS)
         if f:
             rd["fault"] = f
         q.append(rd)
@@ -286,7 +288,7 @@ class IoWorld(World):
         rd = {"op": "read_gpx" if one else "read_gpx_dir", "path": path, "s": s, "dt": 1}
         if not one:
             rd["ls"] = r.randrange(1000)
-        f = self._fault(r, READ_FAULTS)
+        f = self._fault(r, READ_FAULTS if one else DIR_READ_FAULTS)
         if f:
             rd["fault"] = f
         q.append(rd)
@@ -302,7 +304,7 @@ class IoWorld(World):
         f = self._fault(r, WRITE_FAULTS)
         if f:
             st["fault"] = f
-        rd = {"op": "read_network", "path": path, "s": s, "dt": 1}
+        rd = {"op": "read_network" if r.random() < 0.75 else "read_net_wkt", "path": path, "s": s, "dt": 1}
         f = self._fault(r, READ_FAULTS)
         if f:
             rd["fault"] = f
@@ -741,6 +743,30 @@ class IoWorld(World):
         rv, exc, fired = self._io_call(st, NetworkReader.readFromFile, st["path"], fmt, False)
         if self._read_outcome(exc, fired, "net.read.raised"):
             self._judge_network(e, rv)
+        return self._outcome
+
+    def op_read_net_wkt(self, st):
+        """The WKT column of a written network file read back as tracks
+        (TrackReader.readFromWkt): planimetric coordinates of every edge geometry."""
+        from tracklib.io.track_reader import TrackReader
+        e = self.cat.get(st["path"])
+        if not e or e["type"] != "net" or e["state"] != "acked":
+            raise Skip()
+        self._outcome = "ok"
+        rv, exc, fired = self._io_call(st, TrackReader.readFromWkt, st["path"], 4, -1, 0, e["sep"], e["h"])
+        if self._read_outcome(exc, fired, "netwkt.read.raised"):
+            exp = [[list(p) for p in ed[4]] for ed in e["net"]["edges"]]
+            got = [[[o.position.getX(), o.position.getY()] for o in rv.getTrack(i)] for i in range(rv.size())]
+            ids = [str(rv.getTrack(i).tid) for i in range(rv.size())]
+            self.observed(len(got))
+            if got != exp:
+                self.fail("C13", "netwkt.roundtrip.coords", "edge geometries read back as WKT tracks differ",
+                          exp, got, file_h=e["h"])
+            elif ids != [ed[0] for ed in e["net"]["edges"]]:
+                self.fail("C13", "netwkt.roundtrip.ids", "track identifiers read from the link_id column",
+                          [ed[0] for ed in e["net"]["edges"]], ids, file_h=e["h"])
+            else:
+                self.probe("roundtrip_ok_netwkt")
         return self._outcome
 
     # -- WKT (no disk) ---------------------------------------------------------------
